@@ -461,18 +461,18 @@ func numEqual(a, b *tnode) bool {
 }
 
 var (
-	typTime    = reflect.TypeOf(time.Time{})
-	typCTime   = reflect.TypeOf(compact_time.Time{})
-	typBigInt  = reflect.TypeOf(big.Int{})
-	typBigF    = reflect.TypeOf(big.Float{})
-	typDec     = reflect.TypeOf(apd.Decimal{})
-	typDFloat  = reflect.TypeOf(compact_float.DFloat{})
-	typURL     = reflect.TypeOf(url.URL{})
-	typUID     = reflect.TypeOf(types.UID{})
-	typMedia   = reflect.TypeOf(types.Media{})
-	typNode    = reflect.TypeOf(types.Node{})
-	typEdge    = reflect.TypeOf(types.Edge{})
-	typBytes   = reflect.TypeOf([]byte{})
+	typTime   = reflect.TypeOf(time.Time{})
+	typCTime  = reflect.TypeOf(compact_time.Time{})
+	typBigInt = reflect.TypeOf(big.Int{})
+	typBigF   = reflect.TypeOf(big.Float{})
+	typDec    = reflect.TypeOf(apd.Decimal{})
+	typDFloat = reflect.TypeOf(compact_float.DFloat{})
+	typURL    = reflect.TypeOf(url.URL{})
+	typUID    = reflect.TypeOf(types.UID{})
+	typMedia  = reflect.TypeOf(types.Media{})
+	typNode   = reflect.TypeOf(types.Node{})
+	typEdge   = reflect.TypeOf(types.Edge{})
+	typBytes  = reflect.TypeOf([]byte{})
 )
 
 // leBytes: independent little-endian rendering of a numeric slice/array (reference for typed array contents)
